@@ -409,6 +409,16 @@ def _siblings(ck, repo):
         dc = [c for c in fv.calls() if isinstance(c.func, ast.Name) and c.func.id == "directives"]
         ok = len(cc) == 1 and len(dc) == 1 and fv.dominated_by(dc[0], fv.stmt_of(cc[0]))
         ck.ob(f"{name}: the coercer runs before the hooks", ok, f, dc[0] if dc else f.node, construct=f"{name}:order")
+        if cc:
+            pp = f.positional_params
+            if name == "literal_directives_coercer":
+                want_args, want_kw = [pp[0], pp[1], pp[2]], {"variables": "variables", "path": "path", "is_non_null_type": "is_non_null_type"}
+            else:
+                want_args, want_kw = [pp[0], pp[1], pp[2], pp[3]], {"path": "path"}
+            got_kw = {k: unparse(v) for k, v in kwargs(cc[0]).items()}
+            ck.ob(f"{name}: forwards all of its operands to the wrapped coercer ({', '.join(want_args + sorted(want_kw))})", [unparse(a) for a in cc[0].args] == want_args and got_kw == want_kw
+                  and fv.is_awaited(cc[0]), f, cc[0], construct=f"{name}:forwards",
+                  detail="dropping `is_non_null_type` silently disables the null-in-non-null check for variables nested in literals" if name.startswith("literal") else None)
         if dc:
             ok = fv.guarded(dc[0], lambda t: t == "errors", "F") and fv.guarded(dc[0], lambda t: t == "directives", "T")
             ck.ob(f"{name}: hooks run only on a successful coercion", ok, f, dc[0], construct=f"{name}:on-success")
